@@ -581,6 +581,28 @@ def c02(ctx: Ctx) -> None:
             ctx.violation('C02-R5', inst, where, why, construct=construct_key(lk.qualname, 'oslock', why))
         else:
             ctx.undecided('C02-R5', inst, where, why)
+        # ... and its counterpart really unlocks: every normal path of the unlock hook applies the same primitive with the unlock
+        # flag to the descriptor it is given (a hook that leaves it to "the close that follows" keeps the lock alive in every
+        # process that shares the open file description, and for good if that close fails)
+        if ul is not None and verdict == 'good':
+            gu = build(ul, p)
+            fdp_u = ul.params[1] if len(ul.params) > 1 else None
+            prims_u = []
+            for n in gu.nodes:
+                if n.kind != 'call':
+                    continue
+                nm_ = gu.res.path(resolve(gu, n, n.ast.func)) or gu.res.path(n.ast.func) or ''
+                if nm_ in ('fcntl.flock', 'msvcrt.locking') and n.ast.args and isinstance(n.ast.args[0], ast.Name) and n.ast.args[0].id == fdp_u:
+                    flag_ = resolve(gu, n, n.ast.args[1]) if len(n.ast.args) > 1 else None
+                    names_ = {gu.res.path(x) or norm(x) for x in ast.walk(flag_) if isinstance(x, (ast.Attribute, ast.Name))} if flag_ is not None else set()
+                    if names_ & {'fcntl.LOCK_UN', 'msvcrt.LK_UNLCK'}:
+                        prims_u.append(n)
+            wun = must_pass(gu, [gu.entry], [gu.exit], prims_u, edge_ok=lambda e: e.label != 'exc')
+            ctx.check('C02-R5', f'{ul.qualname}: every normal path unlocks the descriptor ({len(prims_u)} unlocking call(s))', f'{FILE}:{ul.lineno}',
+                      wun is None and bool(prims_u), 'flock(fd, LOCK_UN) / locking(fd, LK_UNLCK, n)',
+                      'the unlock hook can return without unlocking: release() reports success while the OS lock lives on with the open file '
+                      'description (a forked child, a failed close) - nobody can acquire the lock file again',
+                      witness=render(gu, wun), construct=construct_key(ul.qualname, 'unlock hook does not unlock'))
     # the public alias: each arm of the platform selection picks a class whose primitive lives in the module that arm has
     # just found importable; whatever is left gets a class that refuses (a class that "locks" with a module that is None
     # fails on first use, one that returns without locking reports locks nobody holds)
